@@ -883,14 +883,15 @@ pub fn finish(agg: &Agg, wall_s: f64, rule: &str, assumptions: Vec<String>) -> i
             agg.truncated.keys().collect::<Vec<_>>()
         );
     }
-    if !agg.harness_errors.is_empty() {
-        for h in &agg.harness_errors {
-            eprintln!("harness error: {}", h);
-        }
-        return 2;
+    for h in &agg.harness_errors {
+        eprintln!("harness error: {}", h);
     }
+    // a violation with a replay file that reproduces outranks trouble the harness had in other runs
     if !agg.violations.is_empty() {
         return 1;
+    }
+    if !agg.harness_errors.is_empty() {
+        return 2;
     }
     0
 }
